@@ -11,6 +11,27 @@ BIG = {"TraceCtrBlake": ["blake256", "blake512", "blake224", "blake384"], "Trace
 STREAMS_T = [("blake224", "TraceCtrBlake"), ("skein512", "TraceCtrSkein"), ("skein256", "TraceCtrSkein")]
 
 
+def apalache_blake_counter(c):
+    """BLAKE's two-word bit counter at the REAL word sizes, every block count up to the format limit (Apalache, inductive)."""
+    import shutil, subprocess, time
+    res = {}
+    for w in (32, 64):
+        t0 = time.time()
+        ok = True
+        for args in (["--init=Init", "--inv=IndInv", "--length=0"], ["--init=IndInit", "--inv=IndInv", "--length=1"]):
+            out_dir = os.path.join(c.workdir(), "apalache-hctr")
+            p = subprocess.run(["timeout", "600", "apalache-mc", "check"] + args + ["--out-dir=" + out_dir, "HashCtrCF%d.tla" % w],
+                               cwd=os.path.join(vlib.SPEC, "apalache"), stdout=subprocess.PIPE, stderr=subprocess.STDOUT, text=True)
+            shutil.rmtree(out_dir, ignore_errors=True)
+            if "The outcome is: Error" in p.stdout:
+                raise vlib.ToolError("Apalache refutes the inductive counter invariant of HashCtrCF%d.tla (model bug):\n%s" % (w, vlib.tail(p.stdout, 15)))
+            ok = ok and "EXITCODE: OK" in p.stdout and "The outcome is: NoError" in p.stdout
+        res["W=2^%d" % w] = {"result": "discharged" if ok else "not discharged on this run", "wall_s": round(time.time() - t0, 1)}
+    res["meaning"] = ("Init => IndInv and IndInv /\\ Step => IndInv' at the real word sizes: t0 + W*t1 equals the bits absorbed after any number of blocks / tails "
+                      "up to 2^(2w)-1 bits, and the checked `t.1 += 1` never overflows inside that limit")
+    c.cov["apalache_blake_counter"] = res
+
+
 def run(c):
     wd = c.workdir()
     # counter logic at scaled word widths: low counter word of 4 and 8 values, several wraps
@@ -19,6 +40,7 @@ def run(c):
             c08.mc(c, "HashBuf", "CONSTANTS\n B = 6\n FOOT = %d\n KIND = \"%s\"\n CW = %d\n MAXLEN = %d\n MAXPIECE = 14\nINIT Init\nNEXT Next\nCHECK_DEADLOCK FALSE\nINVARIANTS Coherent CounterExact FinalRight\n"
                    % (foot, kind, cw, 44 if c.thorough else 30),
                    "HashBuf KIND=%s CW=%d: counter equals the amount absorbed for every length across low-word wraps (CounterExact), carry into the high word, +1/+2 block count" % (kind, cw))
+    apalache_blake_counter(c)
     traces = 0
     for build in ["std-rel", "std-dbg"]:
         binary = vlib.build(build)
@@ -79,7 +101,8 @@ def run(c):
     c.cov["one_call_4GiB"] = [w for m, w in jobs]
     c.cov["traces_validated_against_impl"] = traces
     c.cov["exhaustive_small_model"] = True
-    c.cov["rule"] = ("(1) TLC: HashBuf.tla CounterExact/FinalRight for every message length up to several wraps of a scaled low counter word, all partitions, four hasher kinds. "
+    c.cov["rule"] = ("(0) Apalache: HashCtrCF32/64.tla - BLAKE's two-word bit counter is exact for every block count up to the format limit at the real word sizes (inductive invariant). "
+                     "(1) TLC: HashBuf.tla CounterExact/FinalRight for every message length up to several wraps of a scaled low counter word, all partitions, four hasher kinds. "
                      "(2) real code: on a new instance hook H2 sets the counter to X - k blocks for X in {2^32, 7*2^32 bits (BLAKE-224/256), 2^64, 3*2^64 bits (BLAKE-384/512), 2^8, 2^16, 2^32, 2^40 blocks "
                      "(Groestl), 2^32 bits, 2^32 bytes, near 2^61 bytes (JH), 2^32, 2^40 bytes (Skein)}, then k+j real blocks plus a partial block cross the boundary through the real increment code; "
                      "TLC recomputes the digest from (IV, amount absorbed, remaining bytes) with the hash specifications. (3) really streamed messages (512 MiB BLAKE-256 and JH-256; thorough: BLAKE-224, "
